@@ -172,14 +172,112 @@ def report_rejected(rep, bins, rejected, prop, max_shrink=12):
                 if v["verdict"] == "rejected":
                     shrunk[int(case["id"][3:])] = (case, runs[0], t, v, pf)
     todo_ids = {id(r): i for i, r in enumerate(todo)}
+    final = []
     for r in rejected:
-        case, run, t, v, prof = r
         i = todo_ids.get(id(r))
-        if i is not None and i in shrunk:
-            case, run, t, v, prof = shrunk[i]
-        rep.violation(bf.witness(case, run, t, v, prof),
-                      "%s w=%d %s: %s  prog=%s input=%s" % (
-                          bf.cfg_name(run), case["w"], prof, v["why"], case["prog"], case["input"]))
+        final.append(shrunk[i] if (i is not None and i in shrunk) else r)
+    try:
+        where = localise(rep, bins, final) if final else {}
+    except Exception as e:           # localisation is a convenience, never a reason to fail
+        log("[localise] skipped: %s" % e)
+        where = {}
+    for n, r in enumerate(final):
+        case, run, t, v, prof = r
+        wit = bf.witness(case, run, t, v, prof)
+        if n in where:
+            wit["localisation"] = where[n]
+        rep.violation(wit,
+                      "%s w=%d %s: %s  prog=%s input=%s%s" % (
+                          bf.cfg_name(run), case["w"], prof, v["why"], case["prog"], case["input"],
+                          ("  [" + where[n] + "]") if n in where else ""))
+
+
+def bc_validate(rep, hv, name, items, max_steps=8000):
+    """items: list of (key, case, backend, level, canonical log).  Dumps the bytecode the
+    executor holds (hook H1) and lets TLC run it as BC.tla against the canonical log.
+    Returns {key: verdict record}."""
+    from . import tlc
+    from .common import workdir, NCPU
+    if not items:
+        return {}
+    reqs = [{"op": "dumpbc", "id": str(k), "prog": c["prog"], "w": c["w"], "level": lvl, "backend": b}
+            for k, (key, c, b, lvl, logv) in enumerate(items)]
+    dumps = pool.simple_requests(hv, reqs, timeout=120.0)
+    cases, keys = [], {}
+    for k, ((key, c, b, lvl, logv), d) in enumerate(zip(items, dumps)):
+        if not d or "insts" not in d:
+            continue
+        cid = "b%d" % k
+        keys[cid] = key
+        cases.append({"id": cid, "w": c["w"], "input": c["input"], "log": logv, "insts": d["insts"], "min": d["min"],
+                      "max": d["max"], "temps": d["temps"]})
+    path = os.path.join(workdir(name), "bc-cases.ndjson")
+    tlc.write_ndjson(path, cases)
+    res = tlc.run_tlc("BC", env={"CASES": path, "MAXSTEPS": max_steps}, workers=max(2, NCPU - 2), timeout=1800)
+    rep.add_tlc(res)
+    out = {}
+    for r in res.records:
+        if "verdict" in r and r["id"] in keys:
+            out[keys[r["id"]]] = r
+    return out
+
+
+def bytecode_cross_check(rep, bins, prop, backend, judged, limit):
+    """Execution-free second opinion on the translator: the bytecode of accepted
+    cases, run inside TLC (BC.tla), must emit the canonical log too.  A disagreement
+    here while the real backend produced the canonical log is reported as model
+    drift (INFO), never as a violation."""
+    hv = bins["release"]
+    seen, items = set(), []
+    for case, runs, t, v, prof in judged:
+        if v["verdict"] != "accepted" or t["claim"] != "complete" or v["steps"] < 10:
+            continue
+        for r in runs:
+            if r.get("backend") != backend or r.get("mode", "exec") != "exec" or r.get("alloc", "sys") != "sys":
+                continue
+            key = (case["id"], r["level"])
+            if key in seen:
+                continue
+            seen.add(key)
+            items.append((key, case, backend, r["level"], t["log"]))
+    random.Random(seed()).shuffle(items)
+    items = items[:limit]
+    verd = bc_validate(rep, hv, prop + "-bc", items)
+    acc = sum(1 for v in verd.values() if v["verdict"] == "accepted")
+    inc = sum(1 for v in verd.values() if v["verdict"] == "inconclusive")
+    rej = [(k, v) for k, v in verd.items() if v["verdict"] == "rejected"]
+    rep.coverage["bytecode_model_cross_check"] = {"bytecode_programs_run_in_TLC": len(verd), "accepted": acc,
+                                                  "inconclusive": inc, "model_drift": len(rej)}
+    for k, v in rej[:5]:
+        rep.info("model-drift BC.tla vs real %s on case %s level %d: %s" % (backend, k[0], k[1], v["why"][:200]))
+
+
+def localise(rep, bins, rejected):
+    """For rejected recordings of bytecode backends: does the bytecode itself (BC.tla)
+    reproduce the canonical log?  yes -> the executor is at fault, no -> the optimiser
+    or the bytecode generator."""
+    hv = bins["release"]
+    cand = [(i, r) for i, r in enumerate(rejected) if r[1].get("backend") in ("bcint", "jit")
+            and r[1].get("mode", "exec") == "exec"][:10]
+    if not cand:
+        return {}
+    # the canonical log: what the in-place interpreter records and BFTrace accepts
+    cases = [dict(r[0], id="loc%d" % i) for i, r in cand]
+    ex = bf.execute(hv, cases, lambda c: [{"backend": "inplace", "level": 0}])
+    jd = adjudicate(rep, "LOC", bins, "release", ex, name="localise")
+    canon = {case["id"]: t["log"] for case, runs, t, v, prof in jd if v["verdict"] == "accepted"}
+    items = []
+    for i, r in cand:
+        cid = "loc%d" % i
+        if cid in canon:
+            items.append((i, dict(r[0], id=cid), r[1]["backend"], r[1].get("level", 0), canon[cid]))
+    verd = bc_validate(rep, hv, "localise", items)
+    out = {}
+    for i, v in verd.items():
+        out[i] = ("bytecode (BC.tla) emits the canonical log: the executor misbehaves" if v["verdict"] == "accepted"
+                  else "bytecode (BC.tla) already differs from the canonical log: optimiser or bytecode generator "
+                       "(%s)" % v["why"][:160]) if v["verdict"] != "inconclusive" else "inconclusive"
+    return out
 
 
 def nontrivial(done):
@@ -215,7 +313,7 @@ def run_equivalence(prop, tier, backend_runs, pops, per_pop, profiles=("release"
         # exhaustively enumerated cases are never sampled away
         keep = [e for e in agr if e[0]["pop"] == "E"]
         rest = [e for e in agr if e[0]["pop"] != "E"]
-        room = max(0, adjudicate_max // len(profiles) - len(dis) - len(keep))
+        room = max(0, adjudicate_max // len(profiles) - len(dis))      # E comes on top of the sampled budget
         chosen = dis[:adjudicate_max] + keep + rest[:room]
         rep.count("cases_halting_within_caps", len(halting))
         rep.count("cases_with_disagreeing_backends", len(dis))
@@ -229,6 +327,9 @@ def run_equivalence(prop, tier, backend_runs, pops, per_pop, profiles=("release"
                             "chosen case is validated by TLC against BF.tla (BFTrace); all cases on which "
                             "recordings differ are chosen, agreeing ones are sampled (prescreened counts all runs)"
                             % (",".join(pops), "/".join(profiles)))
+    if prop in ("C02", "C03") and not os.environ.get("VERIF_CASES"):
+        bytecode_cross_check(rep, bins, prop, "bcint" if prop == "C02" else "jit", judged,
+                             400 if tier == "quick" else 6000)
     settle(rep, prop, bins, judged)
     return rep.finish()
 
@@ -278,7 +379,7 @@ def c04(tier):
           {"E": 300000, "rnd": 20000, "S": 20000, "T": 3000, "R": 400, "M": 8000, "N": 2000}
     return run_equivalence("C04", tier, lambda c: [{"backend": "inplace", "level": 0}],
                            ["E", "rnd", "S", "T", "R", "M", "N"], per,
-                           adjudicate_max=6000 if tier == "quick" else 400000, before=design_check_bf)
+                           adjudicate_max=3000 if tier == "quick" else 400000, before=design_check_bf)
 
 
 def c01(tier):
@@ -287,7 +388,7 @@ def c01(tier):
           {"E": 60000, "rnd": 60000, "S": 150000, "R": 400, "M": 40000, "N": 10000, "L": 40000}
     return run_equivalence("C01", tier, lambda c: [{"backend": "irint", "level": l} for l in levels],
                            ["E", "rnd", "S", "R", "M", "N", "L"], per,
-                           adjudicate_max=5000 if tier == "quick" else 80000)
+                           adjudicate_max=2500 if tier == "quick" else 80000)
 
 
 def c02(tier):
@@ -296,7 +397,7 @@ def c02(tier):
         {"E": 60000, "rnd": 40000, "S": 100000, "R": 400, "M": 30000, "N": 20000, "T": 2000, "L": 40000}
     return run_equivalence("C02", tier, lambda c: [{"backend": "bcint", "level": l} for l in range(4)],
                            ["E", "rnd", "S", "R", "M", "N", "T", "L"], per, profiles=("release", "debug"),
-                           adjudicate_max=8000 if tier == "quick" else 120000)
+                           adjudicate_max=5000 if tier == "quick" else 120000)
 
 
 def c03(tier):
@@ -305,7 +406,7 @@ def c03(tier):
         {"E": 60000, "rnd": 40000, "S": 100000, "R": 400, "M": 30000, "N": 60000, "T": 2000, "L": 120000}
     return run_equivalence("C03", tier, lambda c: [{"backend": "jit", "level": l} for l in range(4)],
                            ["E", "rnd", "S", "R", "M", "N", "T", "L"], per,
-                           adjudicate_max=5000 if tier == "quick" else 80000)
+                           adjudicate_max=2500 if tier == "quick" else 80000)
 
 
 # ------------------------------------------------------------------ canonical facts
